@@ -88,4 +88,24 @@ example :
       fun st => decide ((lex defaultCfg (pyStrip (stmtText st)).toArray).toOption = some (trimWs st))) = [true, true] := by
   decide +kernel
 
+/-- **re-split, text level, under `LexStableC`**: the variant of `LexStable` that follows `strip()` character by character — re-lexing the
+stripped text gives the statement's tokens with the whitespace characters cut at both ends (`cutWs`), where only Whitespace-typed tokens
+vanished and only tokens of value-blind types were shortened (`cutOK`; typically the line break ending a trailing `-- comment`). -/
+theorem resplit_text_cut (s : Array Cp) (sts : List (List Tok)) (h : lexSplit s = .ok sts) (st : List Tok) (hst : st ∈ sts)
+    (hstable : LexStableC st) :
+    split (pyStrip (stmtText st)).toArray = .ok [pyStrip (stmtText st)] :=
+  Sql.resplit_text_cut s sts h st hst hstable
+
+/-- the decidable form the driver command `lexstable` evaluates: either stability predicate suffices -/
+theorem resplit_text_any (s : Array Cp) (sts : List (List Tok)) (h : lexSplit s = .ok sts) (st : List Tok) (hst : st ∈ sts)
+    (hstable : (lexStableB st || lexStableCB st) = true) :
+    split (pyStrip (stmtText st)).toArray = .ok [pyStrip (stmtText st)] :=
+  Sql.resplit_text_any s sts h st hst hstable
+
+/-- `select 1; -- c⏎select 2`: the first statement ends with a comment whose line break `strip()` cuts; it is `LexStableC`, not `LexStable` -/
+example :
+    (((lexSplit #[115, 101, 108, 101, 99, 116, 32, 49, 59, 32, 45, 45, 32, 99, 10, 115, 101, 108, 101, 99, 116, 32, 50]).toOption.getD []).map
+      fun st => (lexStableB st, lexStableCB st)) = [(false, true), (true, true)] := by
+  decide +kernel
+
 end Sql.C04
